@@ -305,7 +305,10 @@ class WRec:
         self.ptypes = {}
         self.ents = {}         # real id -> model int
         self.prios = set()
+        self.other_worlds = 0
+        self.in_user = 0
         self.dts = set()
+        self.dtmap = []        # dt is a label in World.tla (handed to the processors unchanged): any value, numbered as met
         self.patched = set()
 
     def bad(self, why):
@@ -319,6 +322,15 @@ class WRec:
         if e not in self.ents:
             self.ents[e] = 100 + len([v for v in self.ents.values() if v >= 100]) + 1
         return self.ents[e]
+
+    def dt(self, v):
+        if isinstance(v, int) and not isinstance(v, bool) and 0 <= v < 1000:
+            return v
+        for i, x in enumerate(self.dtmap):
+            if x is v or (type(x) is type(v) and x == v):
+                return 1000 + i
+        self.dtmap.append(v)
+        return 1000 + len(self.dtmap) - 1
 
     def tname(self, cls, table):
         if cls not in table:
@@ -374,20 +386,24 @@ class WRec:
                             if W.test is not None and W.world is not None and W.depth > 0:
                                 if ev_name == 'process':
                                     dt = a[0] if a else kw.get('dt', 1)
-                                    W.log.append(['process', W.procs.get(id(self_), '?'), dt])
+                                    W.log.append(['process', W.procs.get(id(self_), '?'), W.dt(dt)])
                                 elif id(self_) in W.procs and W.pobj[W.procs[id(self_)]] is self_:
                                     W.log.append([ev_name, W.procs[id(self_)], -1])
+                                elif len(a) > 1 and isinstance(a[1], type(W.world)) and a[1] is not W.world:
+                                    pass        # lifecycle callback of a component of another World
                                 else:
                                     ent = W.ent(a[0]) if a else -1
                                     ok = len(a) > 1 and a[1] is W.world
                                     W.log.append([ev_name, W.comps.get(id(self_), '?'), ent] + ([] if ok else ['WRONGWORLD']))
-                            if ev_name != 'process':
-                                return f(self_, *a, **kw)
+                            W.in_user += 1          # the test's own code runs: calls it makes are its behaviour
                             try:
                                 return f(self_, *a, **kw)
                             except BaseException:
-                                W.proc_raised = W.procs.get(id(self_), '?')     # a processor body raised (Quit, SwitchWorld, ...)
+                                if ev_name == 'process':
+                                    W.proc_raised = W.procs.get(id(self_), '?')     # a processor body raised (Quit, SwitchWorld, ...)
                                 raise
+                            finally:
+                                W.in_user -= 1
                         wrapper._verif_w = ev_name
                         return wrapper
                     setattr(k, meth, make(f, ev_name))
@@ -432,8 +448,13 @@ def _wcall(op, a1, a2, a3, w, call, ret_of=None):
     if W.world is None:
         W.world = w
     elif W.world is not w:
-        W.bad('more than one World in one test')
+        W.other_worlds += 1         # the trace follows the first World of the test; others are not its business
+        return call()
     if W.depth:
+        # a call made by a callback or a processor while a recorded call is running is behaviour of the test's own code:
+        # World.tla has families for some of it (killers, schedulers, ...), the trace specification cannot tell which
+        if W.in_user:
+            W.bad('re-entrant %s from inside a callback or processor (behaviour of the test\'s own code, not a recorded action)' % op)
         W.depth += 1
         try:
             return call()
@@ -522,10 +543,8 @@ def install_world():
     def process(self, dt=1):
         if not on(self):
             return _worig['process'](self, dt)
-        if not (isinstance(dt, int) and not isinstance(dt, bool) and 0 <= dt < 1000):
-            W.bad('non-integer dt')
-        W.dts.add(dt)
-        return _wcall('Process', dt, '-', '-', self, lambda: _worig['process'](self, dt))
+        W.dts.add(W.dt(dt))
+        return _wcall('Process', W.dt(dt), '-', '-', self, lambda: _worig['process'](self, dt))
 
     def clear(self):
         if not on(self):
@@ -533,7 +552,7 @@ def install_world():
         return _wcall('Clear', '-', '-', '-', self, lambda: _worig['clear'](self))
 
     def dispatch(self, event_name, *args, **kwargs):
-        if on(self) and W.depth == 0 and event_name not in ('on_single_dispatch',):
+        if on(self) and W.depth == 0 and (W.world is None or self is W.world) and event_name not in ('on_single_dispatch',):
             W.bad('the test dispatches its own event %r on the world (not an action of World.tla)' % event_name)
         return _worig['dispatch'](self, event_name, *args, **kwargs)
 
